@@ -5,7 +5,8 @@
 import Gama.Proto
 import Gama.Model.XmlEsc
 import Gama.Model.CovBand
-open Gama Gama.Proto Gama.XmlEsc Gama.CovBand
+import Gama.Model.ReaderPoint
+open Gama Gama.Proto Gama.XmlEsc Gama.CovBand Gama.ReaderPoint
 
 def unhexBytes (s : String) : Option (List UInt8) :=
   if s = "-" then some [] else
@@ -51,6 +52,28 @@ def parseOris : List String → Option (List Ori)
 
 def natList (l : List Nat) : String := " ".intercalate (l.map toString)
 
+/-- `P I <hexid> x v y v z v E P …` : points of one section, children in document order (X/Y/Z = constrained) -/
+def parsePoints : List String → List (Ev String) → List (List (Ev String)) → Option (List (List (Ev String)))
+  | [], _, acc => some acc.reverse
+  | "P" :: r, _, acc => parsePoints r [] acc
+  | "E" :: r, cur, acc => parsePoints r [] (cur.reverse :: acc)
+  | "I" :: h :: r, cur, acc =>
+    match unhexBytes h with
+    | some b => parsePoints r (Ev.id (hexBytes b) :: cur) acc      -- ids stay hex-encoded in the model
+    | none => none
+  | "x" :: v :: r, cur, acc => parsePoints r (Ev.x v false :: cur) acc
+  | "X" :: v :: r, cur, acc => parsePoints r (Ev.x v true :: cur) acc
+  | "y" :: v :: r, cur, acc => parsePoints r (Ev.y v false :: cur) acc
+  | "Y" :: v :: r, cur, acc => parsePoints r (Ev.y v true :: cur) acc
+  | "z" :: v :: r, cur, acc => parsePoints r (Ev.z v false :: cur) acc
+  | "Z" :: v :: r, cur, acc => parsePoints r (Ev.z v true :: cur) acc
+  | _, _, _ => none
+
+def b01 (b : Bool) : String := if b then "1" else "0"
+
+def showPoint (p : PointRec String) : String :=
+  s!"pt {p.id} {b01 p.hxy} {b01 p.hz} {b01 p.cxy} {b01 p.cz} {p.x} {p.y} {p.z} {p.indx} {p.indy} {p.indz}"
+
 def step (_ : Unit) (line : String) : Unit × String :=
   match tokens line with
   | ["esc", h] =>
@@ -76,6 +99,14 @@ def step (_ : Unit) (line : String) : Unit × String :=
       match parseOris r with
       | some oris => ((), "reader " ++ natList (readerIndexes pts oris) ++ "\norig " ++ natList (originalIndex pts oris))
       | none => ((), "bad-op")
+    | none => ((), "bad-op")
+  | "points" :: _path :: sect :: rest =>
+    match parsePoints rest [] [] with
+    | some pts =>
+      match runPoints "0" (sectionStart "0" (sect = "adjusted")) pts with
+      | .ok st => ((), "\n".intercalate (st.out.map showPoint ++ ["end"]))
+      | .error .xWithoutY => ((), "throw xWithoutY")
+      | .error .conXWithoutY => ((), "throw conXWithoutY")
     | none => ((), "bad-op")
   | _ => ((), "bad-op")
 
